@@ -1105,6 +1105,13 @@ class BlockwiseRequest(BaseUnicastRequest, interfaces.Request):
             log.error("Error assembling blockwise response (expected first block)")
             raise error.UnexpectedBlock2()
 
+        if not initial_response.opt.block2.is_valid_for_payload_size(
+            len(initial_response.payload)
+        ):
+            # Later blocks are checked in _append_response_block
+            log.error("Error assembling blockwise response (first block has bad size)")
+            raise error.UnexpectedBlock2("Payload size does not match Block2")
+
         assembled_response = initial_response
         last_response = initial_response
         while True:
